@@ -1754,7 +1754,6 @@ def m5_tables(ctx: Any, prog: Program) -> None:
 
 
 MUTANTS: List[Dict[str, Any]] = [
-    {'id': 'curve_edges_read_with_elif', 'file': 'choreo.py', 'find': "        if tok is Token.STRING and tok_val == \"rightedge\":", 'replace': "        elif tok is Token.STRING and tok_val == \"rightedge\":", 'extra': [{'file': 'choreo.py', 'find': "        else:\n            left = CurveEdge(False)\n", 'replace': ""}], 'expect': 'C20.M2', 'refuse_ok': True, 'note': 'round 13'},
     {'id': 'smd_links_capped', 'file': 'smd.py', 'find': "                        for bone, weight in vert.links:\n", 'replace': "                        for bone, weight in sorted(vert.links, key=itemgetter(1))[:3]:\n", 'expect': 'C20.M2', 'note': 'round 12'},
     {'id': 'scene_sounds_written_sorted', 'file': 'choreo.py', 'find': "        for sound in entry.sounds:\n            file.write(struct.pack('<i', add_to_pool(sound)))", 'replace': "        for sound_ind in sorted(add_to_pool(sound) for sound in entry.sounds):\n            file.write(struct.pack('<i', sound_ind))", 'expect': 'C20.M1', 'note': 'round 12'},
     {'id': 'cmdseq_skips_disabled_commands', 'file': 'cmdseq.py', 'find': "    for name, commands in sequences.items():\n        file.write(pad_string(name, 128))", 'replace': "    for name, commands in sequences.items():\n        commands = list(filter(None, commands))\n        file.write(pad_string(name, 128))", 'expect': 'C20.M1', 'note': 'round 11'},
